@@ -70,6 +70,10 @@ type Sim struct {
 	// Choose is the single source of nondeterminism.
 	Choose func(n int, label string) int
 
+	// Debug, if set, receives runtime-level events (pool traffic); it must not
+	// draw or read a clock.
+	Debug func(string)
+
 	// knobs (set before the run starts)
 	YieldInLock bool
 	SiteOff     []bool // SiteOff[site] == true: yield at this site is skipped in this run
@@ -80,7 +84,7 @@ type Sim struct {
 	// outputs
 	Races        []string
 	SiteHits     []uint32
-	PoolStats    struct{ Get, Recycled, CrossTask, Fresh, Dropped int }
+	PoolStats   struct{ Get, Recycled, CrossTask, Fresh, Dropped, DoublePut int }
 	putBy        map[any]int
 	InLockYields int
 }
@@ -382,6 +386,7 @@ func Lock(l sync.Locker, site int) {
 	if st.owner == t || st.readers[t] > 0 {
 		s.mu.Unlock()
 		panic(&Deadlock{fmt.Sprintf("task %s locks %T it already holds, at %s; stack %v", t.Name, l, SiteName(site), t.FuncStack())})
+		// (the lock's address is deliberately not printed: messages must be identical across runs)
 	}
 	free := st.owner == nil && len(st.readers) == 0
 	if !free {
@@ -709,6 +714,9 @@ func PoolGet(p *sync.Pool, site int) any {
 		}
 	}
 	if x != nil {
+		if s.Debug != nil {
+			s.Debug(fmt.Sprintf("pool get %T %p (recycled) by %s", x, x, t.Name))
+		}
 		s.PoolStats.Recycled++
 		if by, ok := s.putBy[x]; ok && by != t.ID {
 			s.PoolStats.CrossTask++
@@ -738,9 +746,17 @@ func PoolPut(p *sync.Pool, x any) {
 		s.PoolStats.Dropped++
 		return
 	}
+	if s.Debug != nil {
+		s.Debug(fmt.Sprintf("pool put %T %p by %s", x, x, t.Name))
+	}
 	s.release(t, reflect.ValueOf(x).Pointer())
 	s.mu.Lock()
 	s.putBy[x] = t.ID
+	for _, y := range s.pools[p] {
+		if y == x {
+			s.PoolStats.DoublePut++ // the object is already in the pool: two owners released it
+		}
+	}
 	s.pools[p] = append(s.pools[p], x)
 	s.mu.Unlock()
 }
